@@ -69,6 +69,15 @@ CHECKS.update({
             'all device response scripts over {INFO,OKAY,DATA(match),DATA(mismatch),FAIL,junk} up to length 3 (quick) / 4 (thorough) x 8 commands / 8 image sizes around multiples of the '
             'chunk size; packets, chunk boundaries, callback calls, return values and exception classes compared with the model', 
             'trusted: TLC, the scripted fake bootloader; chunk size set through the module constant that the --fastboot_download_chunk_size_kb flag targets', 'DESIGN.md 5/C16'),
+    'C14': ('TLA+ specs AdbMux.tla (FIFO exactly-once, acks, chunking) and ReadUntil.tla (PlusCal reader-election protocol, Termination under fairness) checked by TLC; TLC-emitted multiplexer histories replayed; real reader/writer threads explored by preemption-bounded DFS under a deterministic scheduler',
+            'TLC: AdbMux invariants for 2-3 streams with arbitrary device message interleavings; ReadUntil terminates (the pinned protocol and the half repair deadlock in the same model). '
+            'Every emitted history is replayed on the real AdbConnection over a reactive fake device (results, data, every host message compared). Reader/writer threads on the real code '
+            'are explored with <=1 (quick) / <=2 (thorough) preemptions in three scenarios with and without timeouts; each run is judged on deadlock, spurious timeouts, delivery and ack counts',
+            'trusted: TLC, checks/muxlib.py fake device, vf/sched.py + vf/explore.py (preemption at synchronisation operations and transport calls only)', 'DESIGN.md 5/C14'),
+    'C15': ('TLA+ specs AdbConnect.tla (handshake automaton) and AdbMux.tla (id allocator, open/close/remote-close) checked by TLC; every emitted handshake run and open/close history replayed on the real AdbConnection',
+            'all device reply scripts of length <=5 over {CNXN, malformed CNXN, AUTH token, other AUTH, noise, silence} x 0-2 keys (11 718 runs): connection attributes, signed tokens, key order, '
+            'public-key offer, exception classes; open/close/remote-close/illegal-packet histories with id limits 3-6 (exhaustion, reuse, wrap-around), thorough: production limit wrapped by real open/close pairs',
+            'trusted: TLC, scripted fake device; STREAM_ID_LIMIT module constant set to the model constant in quick', 'DESIGN.md 5/C15'),
 })
 
 NOT_APPLICABLE = {
